@@ -22,16 +22,18 @@ def process_level(res, tier):
         for per in ("Ts", "rev"):
             for outstep in ((0, 1, 3, 4, 12, 13) if tier == "thorough" else (0, 1, 3, 12)):
                 for amp, fmod in (((1.0, 4e4), (0.3, 1.7e5)) if tier == "thorough" else ((1.0, 4e4),)):
-                    cases.append((rf, per, outstep, amp, fmod))
-    nsteps = 12
+                    cases.append((rf, per, outstep, amp, fmod, 12))
+        # runs longer than one synchrotron period (the record and the queue cover every step of the whole run)
+        for outstep in ((0, 7) if tier == "thorough" else (7,)):
+            cases.append((rf, "Ts", outstep, 1.0, 4e4, 40))
     steps_per_ts = 16
 
     def do(c):
-        rf, per, outstep, amp, fmod = c
+        rf, per, outstep, amp, fmod, nsteps = c
         a = ["-s", 16, "-T", nsteps / steps_per_ts, "-n", outstep, "-G", 0, "-f", fs, "--padding", 2, "--LinearRF", "true" if rf == "linear" else "false",
              "--RFPhaseModAmplitude", amp, "--RFPhaseModFrequency", fmod]
         a += ["-N", steps_per_ts] if per == "Ts" else ["--StepsPerRevolution", steps_per_ts * fs / frev, "-N", 1000]
-        r = pl.run(exe, a, wd, out="o_%s_%s_%d_%g.h5" % (rf, per, outstep, amp))
+        r = pl.run(exe, a, wd, out="o_%s_%s_%d_%g_%d.h5" % (rf, per, outstep, amp, nsteps))
         doc = pl.h5(r["h5"], maxv=20000) if r["rc"] == 0 else None
         for ext in ("", ".cfg", ".log"):
             try:
@@ -40,8 +42,8 @@ def process_level(res, tier):
                 pass
         return c, r, doc
     for c, r, doc in pl.pmap(do, cases):
-        rf, per, outstep, amp, fmod = c
-        case = "process rf=%s steps-per=%s outstep=%d amplitude=%gdeg f_mod=%gHz" % (rf, per, outstep, amp, fmod)
+        rf, per, outstep, amp, fmod, nsteps = c
+        case = "process rf=%s steps-per=%s outstep=%d amplitude=%gdeg f_mod=%gHz steps=%d" % (rf, per, outstep, amp, fmod, nsteps)
         rp = dict(cmd=r["cmd"])
         if doc is None or "error" in doc:
             res.violate("C19/process/run-failed", case, "rc=%s %s" % (r["rc"], r["log"][-200:]), replay=rp)
